@@ -534,6 +534,73 @@ def fault_recovery(ctx, k):
         r.close()
 
 
+def self_disconnect(ctx, k):
+    """The handler of an event that carries an ack id disconnects its own
+    client from the namespace (sio.disconnect(sid)) and then returns a value:
+    the handler was responsible for the event, so exactly one ACK with that id
+    is still sent to that client (its transport is open)."""
+    import asyncio
+    from vlib import drive as D
+    rng = ctx.case_rng(11 * 10 ** 7 + k)
+    kind = 'sync' if k % 2 == 0 else 'async'
+    async_handlers = rng.random() < 0.5
+    ns = rng.choice(['/', '/a'])
+    ret = rng.choice(['bye', 0, {'b': b'x'}, ('a', 1)])
+    d = D.make_drive(kind, async_handlers=async_handlers)
+    log = []
+    if kind == 'async':
+        async def ev(sid, tok):
+            log.append(('event', sid, tok))
+            await d.sio.disconnect(sid, namespace=ns)
+            return ret
+        d.sio.on('ev', ev, namespace=ns)
+        d.sio.on('disconnect', lambda sid, reason: log.append(
+            ('disconnect', sid, reason)), namespace=ns)
+    else:
+        def ev(sid, tok):
+            log.append(('event', sid, tok))
+            d.sio.disconnect(sid, namespace=ns)
+            return ret
+        d.sio.on('ev', ev, namespace=ns)
+        d.sio.on('disconnect', lambda sid, reason: log.append(
+            ('disconnect', sid, reason)), namespace=ns)
+    try:
+        t = d.open()
+        t.connect(ns)
+        sid = t.sids[ns]
+        t.send_packet(R.EVENT, ns, 9, ['ev', 1])
+        d.join()
+        t.drain()
+        acks = [p for p in t.packets if p['type'] in (R.ACK, R.BINARY_ACK)
+                and p['id'] == 9]
+        discs = [p for p in t.packets if p['type'] == R.DISCONNECT]
+        w = {'part': 'self_disconnect', 'case_index': k, 'kind': kind,
+             'async_handlers': async_handlers, 'namespace': ns,
+             'return': ret, 'log': [list(x) for x in log],
+             'frames': [[p['type'], p['nsp'], p['id'], p['data']]
+                        for p in t.packets], 'errors': d.errors()}
+        ctx.count('self_disconnect_events')
+        want = gen.expected_args(ret)
+        if d.errors():
+            ctx.violation(None, 'handler that disconnects its own client: '
+                          'exception escaped (%s)' % d.errors()[0]['exc'], w)
+        elif len(acks) != 1 or acks[0]['nsp'] != ns or \
+                not R.deep_eq(acks[0]['data'], want):
+            ctx.violation(None, 'a handler disconnected its own client and '
+                          'returned %r: %d ACKs with the event\'s id were '
+                          'sent' % (ret, len(acks)), w)
+        elif len([x for x in log if x[0] == 'disconnect']) != 1 or \
+                len(discs) != 1:
+            ctx.violation(None, 'handler that disconnects its own client: '
+                          'disconnect handler / DISCONNECT packet count is '
+                          'not one', w)
+        else:
+            ctx.case(('self_disconnect', kind, async_handlers, ns,
+                      R.has_bytes(ret)), w)
+    finally:
+        d.close()
+
+
 def run_races(ctx, share):
     """Events racing with a disconnect in progress: asyncio server through
     the interleaving explorer of C04 part (b) (scenarios that contain the
@@ -547,6 +614,7 @@ def run_races(ctx, share):
         for _ in range(8):
             race_threaded(ctx, k)
             fault_recovery(ctx, k)
+            self_disconnect(ctx, k)
             k += 1
         spec = sp[(k // 8) % len(sp)]
         rng = ctx.case_rng(2 * 10 ** 7 + k)
@@ -573,6 +641,7 @@ def run(ctx):
     ctx.require('order_checks', 5)
     ctx.require('racing_events_threaded', 10)
     ctx.require('handler_fault_recoveries', 10)
+    ctx.require('self_disconnect_events', 10)
     ctx.require('racing_events_while_disconnecting', 10)
     run_races(ctx, (ctx.budget or 30) * 0.2)
     k = 0
@@ -586,6 +655,8 @@ def replay(ctx, w):
     wi = w['witness']
     if wi.get('part') == 'race_threaded':
         return race_threaded(ctx, wi['case_index'])
+    if wi.get('part') == 'self_disconnect':
+        return self_disconnect(ctx, wi['case_index'])
     if wi.get('part') == 'fault_recovery':
         return fault_recovery(ctx, wi['case_index'])
     if wi.get('part') == 'sched':
